@@ -96,7 +96,12 @@ void muggle_async_logger_destroy(muggle_logger_t *logger)
 		return;
 	}
 
-	muggle_channel_write(&async_logger->channel, NULL);
+	// the sentinel must not be lost when the channel is full, otherwise the
+	// writer thread never exits and the join below never returns
+	while (muggle_channel_write(&async_logger->channel, NULL) == MUGGLE_ERR_FULL)
+	{
+		muggle_thread_yield();
+	}
 	muggle_thread_join(&async_logger->thread);
 
 	muggle_channel_destroy(&async_logger->channel);
@@ -155,7 +160,13 @@ void muggle_async_logger_log(
 	msg->payload = payload;
 
 	// write
-	muggle_channel_write(&async_logger->channel, msg);
+	if (muggle_channel_write(&async_logger->channel, msg) != MUGGLE_OK)
+	{
+		// channel full: the message is dropped, the writer thread will never
+		// see it, so it has to be released here
+		free(payload);
+		async_logger->p_free(msg);
+	}
 
 #if MUGGLE_DEBUG
 	if (level >= MUGGLE_LOG_LEVEL_FATAL)
